@@ -285,7 +285,11 @@ def same_millisecond(sig):
     whose time codes do not compare as begin < end -- 'ms': they round to the same millisecond; 'float': the milliseconds differ but
     to_seconds() returns the same float (times beyond 2^53 ms).  None: every interval keeps begin < end."""
     kind = None
-    for a, b in zip(sig, sig[1:]):
+    # the last interval is unbounded: the writers give its cue the default end "begin + 10 s", computed on floats
+    # (cue.set_end(cue.get_begin().to_seconds() + 10.0)): beyond 2^53 s the sum is the begin itself and the cue collapses too
+    pairs = list(zip(sig, sig[1:]))
+    if sig: pairs.append((sig[-1], sig[-1] + 10))
+    for a, b in pairs:
         ma, mb = clock_ms(a), clock_ms(b)
         if ma >= mb: return "ms"
         try:
@@ -297,8 +301,20 @@ def same_millisecond(sig):
 def time_beyond_float(sig, doc):
     """finding writer-time-overflow: a time of the document is so large that a writer's conversion to float (of the time itself, of the time
     in frames, hours or milliseconds) overflows.  Necessary condition evaluated on the input: the largest significant time is above
-    1e290 s (float max is 1.8e308; the writers multiply by at most the frame rate x 1000)."""
-    return bool(sig) and max(sig) > 10 ** 290
+    1e290 s, or some begin / end / animation-step time of the document is (float max is 1.8e308; the writers multiply by at most the frame
+    rate x 1000)."""
+    if sig and max(sig) > 10 ** 290: return True
+    # the IMSC writer prints the begin / end of EVERY element, region and animation step as they stand in the model, also those that
+    # never become significant times (clipped by an ancestor's end, on an element that is never active)
+    import ttconv.model as M
+    todo = list(doc.iter_regions()) + ([doc.get_body()] if doc.get_body() is not None else [])
+    while todo:
+        e = todo.pop()
+        if isinstance(e, M.Text): continue
+        ts = [e.get_begin(), e.get_end()] + [x for a in e.iter_animation_steps() for x in (a.begin, a.end)]
+        if any(t is not None and abs(t) > 10 ** 290 for t in ts): return True
+        todo.extend(e)
+    return False
 
 def time_digits_beyond_int_str(sig):
     """finding writer-time-int-digits: a time so large that its frame count has more decimal digits than str(int) converts (4300 by default).
@@ -306,12 +322,24 @@ def time_digits_beyond_int_str(sig):
     configurations and the factor 3600 add fewer than 10 digits)."""
     return bool(sig) and int(max(sig)).bit_length() > 14000
 
+def raw_times(doc):
+    """every begin / end / animation-step time that stands in the model (the IMSC writer prints them all)"""
+    import ttconv.model as M
+    out = []
+    todo = list(doc.iter_regions()) + ([doc.get_body()] if doc.get_body() is not None else [])
+    while todo:
+        e = todo.pop()
+        if isinstance(e, M.Text): continue
+        out.extend(t for t in [e.get_begin(), e.get_end()] + [x for a in e.iter_animation_steps() for x in (a.begin, a.end)] if t is not None)
+        todo.extend(e)
+    return out
+
 def input_predicates(doc, sig):
     """-> dict stamped on every downstream failure of this document (harness/c18.py FINDINGS consults it)"""
     out = {}
     for name, f in (("ruby_prunable", lambda: ruby_child_prunable(doc)), ("same_ms", lambda: same_millisecond(list(sig)) if sig is not None else None),
                     ("big_time", lambda: time_beyond_float(list(sig), doc) if sig is not None else None),
-                    ("huge_time", lambda: time_digits_beyond_int_str(list(sig)) if sig is not None else None)):
+                    ("huge_time", lambda: time_digits_beyond_int_str(list(sig) + [abs(t) for t in raw_times(doc)]) if sig is not None else None)):
         try: out[name] = f()
         except InputTimeout: raise
         except BaseException as e: out[name] = f"predicate failed: {type(e).__name__}: {e}"[:120]   # fails closed: a string is not a recognised value
